@@ -105,6 +105,15 @@ Theorem C01_mul_dies :
 Proof. exact (fun base dflt => mzd_mul_dies base dflt gen_table). Qed.
 Print Assumptions C01_mul_dies.
 
+(** the bound 63 <= cutoff of C01__mzd_addmul is necessary (finding; the library segfaults on this
+    input, also through mzd_trsm_upper_left(U, B, 32) with U 8191x8191, B 8191x4096) *)
+Theorem C01__mzd_addmul_small_cutoff_refuted :
+  exists cutoff C A B, 0 < cutoff < 63 /\ wf C /\ wf A /\ wf B /\ nc A = nr B /\ nr C = nr A /\ nc C = nc B /\
+    0 < nr A /\ 0 < nc A /\ 0 < nc B /\
+    _mzd_addmul_gen base_ref 2048 cutoff false false C A B = Err OOB.
+Proof. exact addmul_small_cutoff_refuted. Qed.
+Print Assumptions C01__mzd_addmul_small_cutoff_refuted.
+
 (** C16: tasks that write one quadrant each: every interleaving of the task lists leaves in a
     quadrant exactly what the section owning it computes *)
 Theorem C16_sections_commute :
@@ -139,9 +148,8 @@ Print Assumptions C01_mp_base_partial.
 (** non-vacuity: a correct base multiplier exists, and the models run (one recursion level with
     remainder strips in every direction; squaring route; accumulating route on a window; the mp
     front end with its sections in program order) *)
-Definition base_ref (C A B : mat) (clr : bool) : res mat := Ok (if clr then mmul A B else madd C (mmul A B)).
-Example base_ref_correct : base_correct base_ref.
-Proof. intros C A B clr _ _ _ _ _ _ _ _ _. reflexivity. Qed.
+Example base_ref_is_correct : base_correct base_ref.
+Proof. exact base_ref_correct. Qed.
 
 Definition rnd (r c : nat) (s : N) : mat :=
   mk r c (map (fun i => N.land (N.of_nat i * 2654435761 + s * 40503 + (N.of_nat i * N.of_nat i) * 97)
